@@ -117,6 +117,16 @@ def gen_cases(fmt, tier):
             if c is not None:
                 ar_, exp_, line_ = c
                 cases.append((ar_, exp_, f"{idx:>5d}" + line_[5:]))
+    if fmt == "leeds":
+        # the rate file abbreviates CH2OHC... to YC... (10-character columns); the reader documents the expansion, for the
+        # gas-phase name and for the same name behind the surface prefix
+        full = lambda nm: nm.replace("YC", "CH2OHC")
+        for r_, p_, code_ in ((["YCHO", "H"], ["YCO", "H2"], 1), (["YCHO"], ["GYCHO"], 7), (["GYCHO"], ["YCHO"], 8), (["GYCHO", "GH"], ["GYCO", "GH2"], 13), (["H", "GYCO"], ["GYCHO"], 13)):
+            c = mk(fmt, r_, p_, 1e-10, 0.0, 100.0, 10, 300, 777, code_, None)
+            if c is not None:
+                c[1]["reactants"] = sorted(full(x) for x in r_)
+                c[1]["products"] = sorted(full(x) for x in p_)
+                cases.append(c)
     # markers in the product columns (the emitted photon of a radiative association, RATE12's ":RA:C+:C3:C4+:PHOTON:"):
     # every marker token of the format, at every product position
     for marker in PRODUCT_MARKERS[fmt]:
